@@ -82,7 +82,9 @@ def run(ck, models, tier):
                     ck.ob("R3.6", "%s/at-most-one-mapping-per-install" % rn, tm.target, na <= most,
                           "normal path performs %d allocation(s) (at most %d)" % (na, most))
                     # the mapping the guard will release is this installation's own allocation, or none at all
-                    if g.jit_ptr:
+                    null_alloc = bool(al_) and any(c.op == "eq" and isinstance(al_[-1].ret, Int) and al_[-1].ret.e in c.args and any(
+                        isinstance(x, E) and x.is_const() and x.val == 0 for x in c.args) for c in guards.true_conds(v.decisions))
+                    if g.jit_ptr and not null_alloc:
                         for pev, gv, cont in pushed_guards(v, g.adt):
                             jp = guard_field(gv, None, g.jit_ptr)
                             own = isinstance(jp, Int) and ((jp.is_const() and jp.cval() == 0) or any(isinstance(a_.ret, Int) and same_expr(jp.e, a_.ret.e) for a_ in al_))
